@@ -15,7 +15,7 @@ META = dict(
                 "intervention_targets, split_data, add_edges, remove_edges - the same call is executed TWICE inside one path with a "
                 "symbolic seed s >= 0 (0 is a value the solver may pick) and symbolic arguments: the first from an arbitrary state G0 of "
                 "numpy's global generator, the second after the global generator has been put into another arbitrary, unrelated state "
-                "(an uninterpreted constant: this is 'any interleaving of other sampling / reseeding'). numpy's generators are contract "
+                "(an uninterpreted constant: this is 'any interleaving of other sampling / reseeding'), with a battery of OTHER library calls in between (utilities on other graphs of the same size, another model, draws from and reseeding of the global generator) so that state carried from call to call inside the library is seen. numpy's generators are contract "
                 "stubs built from uninterpreted functions of (state, draw number, index), so 'bit-identical' is term equality decided by "
                 "z3 (QF_UF + arithmetic): both calls must raise alike or return the same shape with element-wise equal terms. "
                 "Non-degeneracy: for two consecutive UNSEEDED calls the query 'some element differs' must be satisfiable.",
@@ -63,7 +63,30 @@ def _run(call, sd):
         return ('raised ' + type(ex).__name__, None, [])
 
 
-def _pair(ctx, api, call, inputs, info):
+def _battery(ctx, size=3):
+    """other library / numpy calls made between the two seeded calls (none of them forks): seeded and unseeded
+    utilities on OTHER graphs, draws from and reseeding of the global generator, another model"""
+    ut = ctx.mod('sempler.utils')
+    nzm = ctx.mod('sempler.noise')
+    lg = ctx.mod('sempler.lganm')
+    full = np.triu(np.ones((size, size)), k=1)
+    empty = np.zeros((size, size))
+    for f, A, k in ((ut.add_edges, full, 0), (ut.remove_edges, empty, 0), (ut.add_edges, full, 0)):
+        try:
+            f(A, k, random_state=7)
+        except ValueError:
+            pass
+    try:
+        ut.split_data([np.zeros((1, 2))], [1.0], random_state=3)
+    except ValueError:
+        pass
+    np.random.seed(11)
+    nzm.normal(0, 1)(2)
+    lg.LGANM(np.zeros((2, 2)), (0, 1), (1, 2), random_state=5)
+    lg.LGANM(np.zeros((2, 2)), np.zeros(2), np.ones(2)).sample(population=True)
+
+
+def _pair(ctx, api, call, inputs, info, size=3):
     e = ctx.eng
     mode = ctx.params.get('mode', 'both')
     seed = e.int('seed')
@@ -73,7 +96,8 @@ def _pair(ctx, api, call, inputs, info):
     outcome = 'returned'
     if mode in ('both', 'seeded'):
         a = _run(call, seed)
-        np.random.set_global_state('Gother')          # anything may have happened to the global generator in between
+        _battery(ctx, size)                           # other library calls in between (state carried between calls?)
+        np.random.set_global_state('Gother')          # and anything may have happened to the global generator
         b = _run(call, seed)
         cl.append(('both seeded calls behave alike (%s / %s)' % (a[0], b[0]), a[0] == b[0]))
         if a[0] == b[0] == 'ok':
@@ -288,7 +312,7 @@ def h_edges(which):
 
         def call(sd):
             return f(np.array(rows, dtype=float), k, random_state=sd)
-        return _pair(ctx, which + '_edges', call, dict(A=rows, no_edges=k), dict(pattern=[list(r) for r in pat]))
+        return _pair(ctx, which + '_edges', call, dict(A=rows, no_edges=k), dict(pattern=[list(r) for r in pat]), size=p)
     return fn
 
 
@@ -394,6 +418,15 @@ def replay(rec):
     numpy.random.normal(size=11)
     numpy.random.default_rng(5).uniform(size=3)
     real_sempler().LGANM(numpy.array([[0, 1.0], [0, 0]]), (0, 1), (1, 2)).sample(4)
+    # other utilities on other graphs of the same size (state carried inside the library)
+    u = real_sempler().utils
+    size = len(inp['A']) if 'A' in inp else 3
+    for f, A, k in ((u.add_edges, numpy.triu(numpy.ones((size, size)), 1), 0), (u.remove_edges, numpy.zeros((size, size)), 0),
+                    (u.add_edges, numpy.zeros((size, size)), 1 if size > 1 else 0)):
+        try:
+            f(A, k, random_state=7)
+        except Exception:
+            pass
     b = _rrun(call, sd)
     same = (len(a) == len(b)) and all((x == y) or (isinstance(x, float) and isinstance(y, float) and x != x and y != y) for x, y in zip(a, b))
     return (not same, '%s with random_state=%d called twice with other sampling / reseeding in between: results %s' % (inp['api'], sd, 'DIFFER: %s vs %s' % (str(a)[:120], str(b)[:120]) if not same else 'are identical'))
